@@ -8,7 +8,7 @@ RULE = ("sweep: every command/alias row of the regenerated system-function table
         "thorough tier, strided in quick); the decoded real bytes must be exactly the messages of Spec.Messages (hand-written from the MIDI "
         "standard). context: the same one-command programs after music that leaves per-track state behind (slurs, earlier settings of the same parameter, "
         "other channel/track) must add exactly the events they add after a silent prefix reaching the same track, channel and time. non-trivial = distinct (command, decoded message) pairs")
-ASSUMPTIONS = ["text payloads are written without quotes (`TrackName{abc}`); characters the sutoton preprocessor rewrites are not used in payloads",
+ASSUMPTIONS = ["text payloads are written in braces (`TrackName{abc}`) or between double quotes after `=` (`Text=\"abc\"`, no quote inside); characters the sutoton preprocessor rewrites are not used in payloads",
                "values outside the documented domain are only required to be clamped into 7 bits"]
 TRUSTED = ["Spec.Messages tables (controller numbers, RPN/NRPN addresses, meta types, reset strings) are my transcription of the MIDI/GM/GS/XG documents"]
 
@@ -37,6 +37,11 @@ def streams(tier, rng, P, only=None, cases=None):
             for L in lens:
                 txt = "".join(rng.choice(TEXT_CHARS) for _ in range(L))
                 add(n, "%s{%s}" % (n, txt), [], txt)
+            # the text written between double quotes after `=`: it is taken up to the next quote, byte for byte (a backslash is a backslash)
+            for L in (0, 1, 3, 7, 20):
+                txt = "".join(rng.choice(TEXT_CHARS + "\\\\/:") for _ in range(L))
+                add(n, '%s="%s"' % (n, txt), [], txt)
+            for txt in ("a\\b", "C:\\", "\\", "x\\n", "\\\\"): add(n, '%s="%s"' % (n, txt), [], txt)
         elif tt == "Tempo":
             for v in (range(1, 401) if (big or n in ("Tempo", "T")) else list(range(1, 401, 13)) + [9, 10, 11, 120, 151, 299, 300, 301]): add(n, "%s(%d)" % (n, v), [v])
         elif tt == "TimeSignature":
